@@ -352,6 +352,9 @@ func c08Run(c *core.Ctx) {
 				}
 			}
 		}
+		for _, b := range []int{65536, 65537, 65541, 131072 + 5, 262144 + 5} {
+			lens = append(lens, b) // beyond 64 KiB: implementations that work in passes have their seams here
+		}
 		for li, l := range lens {
 			if !c.Mine(li) {
 				continue
